@@ -242,6 +242,9 @@ Reservoir Thickness, 0.25
 Reservoir Life Cycle, 25
 Density Of Reservoir Rock, 1e11
 """
+HIP_HUGE_INPUTS = [{'name': 'Reservoir Area', 'dist': 'uniform', 'args': [8000.0, 9900.0], 'edge': False, 'discrete': False},
+                   {'name': 'Reservoir Thickness', 'dist': 'uniform', 'args': [2.0, 4.0], 'edge': False, 'discrete': False}]
+HIP_HUGE_OUTPUTS = ['Producible Electricity (reservoir)', 'Producible Heat (reservoir)', 'Reservoir Volume (reservoir)']
 HIP_9999_INPUT = {'name': 'Rock Heat Capacity', 'dist': 'uniform', 'args': [6.66590e12, 6.66614e12], 'edge': False, 'discrete': False}
 HIP_9999_OUTPUTS = ['Specific Enthalpy (rock)', 'Producible Electricity (reservoir)']
 
